@@ -2,6 +2,7 @@ package main
 
 import (
 	"fmt"
+	"go/token"
 	"go/types"
 	"strings"
 
@@ -15,9 +16,10 @@ func init() {
 			"(R1) every call through a function value in package modules is classified; each managed invocation (worker/microtask function, lifecycle function, task function, event hook, notify functions) is preceded on every path by a defer whose closure calls recover() and, on the non-nil branch, builds NewPanicError from the recovered value and Reports it - or sits in a closure handed to RunWorker/StartWorker; the blocking variants store the panic error to the named result, control functions send an error on the result channel; " +
 			"(R2) the accounting that must survive a panic (counter release - shared with C05-R2 -, Task.executing reset, ctrlFuncRunning reset + checkIfStopComplete, concludeMicroTask) executes on every path of deferred code; " +
 			"(R3) NewPanicError records severity 'panic', the panic value and debug.Stack(); (R4) the API layer runs each request inside RunWorker and the handler call is dominated by a defer-recover that reports and answers 500; " +
-			"(R5) the service-worker loop is left only on nil, context.Canceled, module stopping or context done - and the error tests cannot be satisfied by a panic error (ModuleError does not unwrap). " +
+			"(R5) the service-worker loop is left only on nil, context.Canceled, module stopping or context done - and the error tests cannot be satisfied by a panic error (ModuleError does not unwrap); " +
+			"(R6) recovery code never calls a method of, or through, the recovered panic value itself (directly or via NewPanicError and the helpers it reaches): a second panic raised inside the handler would escape containment; the value may only be handed to the fmt/log formatters, which guard such calls. " +
 			"NOT decided: panics in goroutines that user code spawns itself, process-level behaviour.",
-		Rules: []ruleFn{c06R1, c06R2, c06R3, c06R4, c06R5},
+		Rules: []ruleFn{c06R1, c06R2, c06R3, c06R4, c06R5, c06R6},
 	})
 }
 
@@ -253,45 +255,18 @@ func c06R2(c *Ctx, r *Report) {
 
 // viaPanicWithoutSend: u is reachable from the recover()!=nil edge without passing a send.
 func viaPanicWithoutSend(ri recoverInfo, u ssa.Instruction, sends []ssa.Instruction) bool {
-	cl := ri.Closure
-	for _, b := range cl.Blocks {
-		ifi, ok := b.Instrs[len(b.Instrs)-1].(*ssa.If)
-		if !ok {
-			continue
-		}
-		base, pos := peel(ifi.Cond)
-		if base != ssa.Value(ri.Recover) {
-			continue
-		}
-		succ := b.Succs[0]
-		if !pos {
-			succ = b.Succs[1]
-		}
-		// BFS from succ avoiding sends
-		if len(succ.Instrs) == 0 {
-			continue
-		}
-		start := succ.Instrs[0]
-		isU := func(in ssa.Instruction) bool { return in == u }
-		isSend := func(in ssa.Instruction) bool {
-			for _, s := range sends {
-				if in == s {
-					return true
-				}
+	// a path from the closure's entry to the UnSet that neither established
+	// recover()==nil nor sent the error: this includes an UnSet placed before recover().
+	isSend := func(in ssa.Instruction) bool {
+		for _, s := range sends {
+			if in == s {
+				return true
 			}
-			return false
 		}
-		if isU(start) {
-			return true
-		}
-		if isSend(start) {
-			continue
-		}
-		if ReachInstr(cl, start, isU, isSend) != nil {
-			return true
-		}
+		return false
 	}
-	return false
+	noPanic := Guard{Name: "recover()==nil", Truthy: false, Match: func(b ssa.Value) bool { return b == ssa.Value(ri.Recover) }}
+	return ReachFromAvoiding(ri.Closure, nil, func(in ssa.Instruction) bool { return in == u }, []Guard{noPanic}, isSend) != nil
 }
 
 func c06R3(c *Ctx, r *Report) {
@@ -477,4 +452,137 @@ func c06R5(c *Ctx, r *Report) {
 				"ModuleError."+bad+"() exposes the panic value: a panic whose value wraps context.Canceled is treated as a clean end and the service worker is not restarted")
 		}
 	}
+}
+
+// c06R6: no foreign code runs on the recovered value inside the recovery path.
+func c06R6(c *Ctx, r *Report) {
+	const rule = "C06-R6"
+	r.SetFloor(rule, 6)
+	type job struct {
+		fn   *ssa.Function
+		root ssa.Value
+	}
+	var findings []string
+	analysed := map[string]bool{}
+	var walkC func(fn *ssa.Function, root ssa.Value, isCell bool, depth int, trail string)
+	walk := func(fn *ssa.Function, root ssa.Value, depth int, trail string) { walkC(fn, root, false, depth, trail) }
+	walkC = func(fn *ssa.Function, root ssa.Value, isCell bool, depth int, trail string) {
+		tainted := map[ssa.Value]bool{}
+		cells := map[ssa.Value]bool{} // addresses holding the recovered value
+		if isCell {
+			cells[root] = true
+		} else {
+			tainted[root] = true
+		}
+		for changed := true; changed; {
+			changed = false
+			eachInstr(fn, func(in ssa.Instruction) {
+				if st, ok := in.(*ssa.Store); ok {
+					if tainted[st.Val] && !cells[st.Addr] {
+						cells[st.Addr] = true
+						changed = true
+					}
+					return
+				}
+				v, ok := in.(ssa.Value)
+				if !ok || tainted[v] {
+					return
+				}
+				hit := false
+				switch x := in.(type) {
+				case *ssa.TypeAssert:
+					hit = tainted[x.X]
+				case *ssa.Extract:
+					if ta, ok := x.Tuple.(*ssa.TypeAssert); ok && x.Index == 0 {
+						hit = tainted[ta]
+					}
+				case *ssa.ChangeInterface:
+					hit = tainted[x.X]
+				case *ssa.MakeInterface:
+					hit = tainted[x.X]
+				case *ssa.ChangeType:
+					hit = tainted[x.X]
+				case *ssa.UnOp:
+					hit = x.Op == token.MUL && cells[x.X]
+				case *ssa.Phi:
+					for _, e := range x.Edges {
+						if tainted[e] {
+							hit = true
+						}
+					}
+				}
+				if hit {
+					tainted[v] = true
+					changed = true
+				}
+			})
+		}
+		eachInstr(fn, func(in ssa.Instruction) {
+			if mc, ok := in.(*ssa.MakeClosure); ok && depth > 0 {
+				cl := mc.Fn.(*ssa.Function)
+				for i, b := range mc.Bindings {
+					if (tainted[b] || cells[b]) && i < len(cl.FreeVars) {
+						walkC(cl, cl.FreeVars[i], cells[b], depth-1, trail+fnKey(fn)+" -> ")
+					}
+				}
+				return
+			}
+			ci, ok := in.(ssa.CallInstruction)
+			if !ok {
+				return
+			}
+			cc := ci.Common()
+			if cc.IsInvoke() {
+				if tainted[cc.Value] {
+					findings = append(findings, fmt.Sprintf("%s%s calls method %s of the recovered panic value at %s", trail, fnKey(fn), cc.Method.Name(), c.Pos(in.Pos())))
+				}
+				return
+			}
+			callee := staticCallee(cc)
+			if callee == nil {
+				if tainted[cc.Value] {
+					findings = append(findings, fmt.Sprintf("%s%s calls the recovered panic value as a function at %s", trail, fnKey(fn), c.Pos(in.Pos())))
+				}
+				return
+			}
+			// a method called on a concrete type extracted from the panic value (e.g. v.(*T).Error())
+			if callee.Signature.Recv() != nil && len(cc.Args) > 0 && tainted[cc.Args[0]] && !c.isRepoFunc(callee) {
+				findings = append(findings, fmt.Sprintf("%s%s calls %s on the recovered panic value at %s", trail, fnKey(fn), calleeName(cc), c.Pos(in.Pos())))
+				return
+			}
+			if depth > 0 && callee.Blocks != nil && c.isRepoFunc(callee) {
+				for i, a := range cc.Args {
+					if tainted[a] && i < len(callee.Params) {
+						analysed[fnKey(callee)] = true
+						walk(callee, callee.Params[i], depth-1, trail+fnKey(fn)+" -> ")
+					}
+				}
+			}
+		})
+	}
+	n := 0
+	for _, pkg := range []string{"modules", "api", "modules/subsystems"} {
+		for _, fn := range c.FuncsIn(pkg) {
+			eachInstr(fn, func(in ssa.Instruction) {
+				call, ok := in.(*ssa.Call)
+				if !ok || calleeName(&call.Call) != "builtin.recover" {
+					return
+				}
+				n++
+				before := len(findings)
+				walk(fn, call, 3, "")
+				cons := fmt.Sprintf("%s / recovered value is only formatted, never invoked", fnKey(fn))
+				if len(findings) > before {
+					r.Bad(rule, cons, findings[before], findings[before+1:]...)
+				} else {
+					r.OK(rule, cons, "no method of the recovered value is called in the handler or the helpers it reaches")
+				}
+			})
+		}
+	}
+	if n == 0 {
+		r.Undecided(rule, "recover() sites", "no recovery handler found")
+	}
+	r.Check(analysed["modules.(*Module).NewPanicError"], rule, "modules.(*Module).NewPanicError / analysed as part of the recovery path",
+		"NewPanicError receives the recovered value and was analysed", "NewPanicError is no longer reached with the recovered value from any handler (anchor lost)")
 }
